@@ -186,6 +186,8 @@ def run(run: Run):
                "an explicit per-call retry/timeout overrides the default",
                "wf_service_config: initialBackoff, maxBackoff, backoffMultiplier > 0 (gRPC service-config schema) - otherwise the keyword is omitted and api-core's default applies")
     run.not_decided.append("actual sleeping / attempt counts (inside api-core)")
+    run.native_standin("props.C09_native", "scenarios")
+
 
 
 def falsify(run, group, info):
